@@ -61,6 +61,20 @@ def facts(case):
             d['other_at_band_ends'] = other(x[[0, -1]]).value
     if ow is not None:
         d['b'] = [float(ow.value.min()), float(ow.value.max())]
+    if bw is not None and ow is not None and d.get('a') is not None:
+        # the excluded-throughput fraction, two ways: end-point trapezoids over the excluded pieces, and the
+        # trapezoid over the bandpass's own samples restricted to those pieces
+        from scipy.integrate import trapezoid
+        a1, a2 = d['a']
+        b1, b2 = d['b']
+        total = abs(trapezoid(y, x))
+        coarse = fine = 0.0
+        for lo, hi in ((a1, b1), (b2, a2)):
+            if lo < hi:
+                coarse += abs(trapezoid(band(np.array([lo, hi])).value, [lo, hi]))
+                g = np.unique(np.concatenate([x[(x > lo) & (x < hi)], [lo, hi]]))
+                fine += abs(trapezoid(band(g).value, g))
+        d['total'], d['excl_coarse'], d['excl_fine'] = float(total), float(coarse), float(fine)
     return d
 
 
@@ -167,6 +181,15 @@ def oracle_verdict(rep, case, out):
         ends = f.get('other_at_band_ends')
         if ends is None or not all(abs(e) <= 1e-8 for e in ends):
             rep.oracle_fail('check_overlap:full_without_zero_ends', 'full although not contained and other non-zero at band ends', case, out)
+    if v in ('partial_most', 'partial_notmost') and f.get('total'):
+        # graded by the excluded-throughput threshold (decided only where both ways of measuring it agree)
+        thr = O.fl(case['ovthr']) if 'ovthr' in case else 0.01
+        fr = [f['excl_coarse'] / f['total'], f['excl_fine'] / f['total']]
+        want = 'partial_most' if all(x < thr * (1 - 1e-9) for x in fr) else \
+            'partial_notmost' if all(x > thr * (1 + 1e-9) for x in fr) else None
+        if want is not None and v != want:
+            rep.oracle_fail('check_overlap:grade:%s_expected' % want,
+                            'verdict %s, excluded fraction %.6g (end-point) / %.6g (sampled), threshold %g' % (v, fr[0], fr[1], thr), case, out)
 
 
 def oracle_obs(rep, case, out):
@@ -297,6 +320,33 @@ def gen_exhaustive(rng, K, thorough):
     return cases
 
 
+def gen_grading(rng, K, n):
+    """bandpass support strictly containing, or sticking out on one side of, an untapered source range, with the
+    excess on each side anywhere from a sliver to most of the band, against the default and other thresholds"""
+    cases = []
+    for _ in range(n):
+        a1 = O.dy(rng, 2000, 4000, 0)
+        width = O.dy(rng, 1000, 4000, 0)
+        nb = rng.randint(2, 7)
+        bpts = sorted({a1, a1 + width} | {a1 + width * F(rng.randint(1, 63), 64) for _ in range(nb - 2)})
+        sliver = lambda: width * F(rng.choice([1, 2, 3, 5, 8]), rng.choice([1024, 512, 256]))
+        chunk = lambda: width * F(rng.randint(4, 28), 64)
+        kind = rng.choice(['both_small_blue', 'both_small_red', 'both_small', 'both_large', 'blue_only', 'red_only'])
+        lo = {'both_small_blue': sliver, 'both_small_red': chunk, 'both_small': sliver, 'both_large': chunk,
+              'blue_only': rng.choice([sliver, chunk]), 'red_only': lambda: -chunk()}[kind]()
+        hi = {'both_small_blue': chunk, 'both_small_red': sliver, 'both_small': sliver, 'both_large': chunk,
+              'blue_only': lambda: -chunk(), 'red_only': rng.choice([sliver, chunk])}[kind]()
+        b1, b2 = a1 + lo, a1 + width - hi
+        spts = sorted({b1, b2} | {b1 + (b2 - b1) * F(rng.randint(1, 15), 16) for _ in range(rng.randint(0, 3))})
+        band = {'prim': 'bandpass', 'leaf': table_on(bpts, False, rng)}
+        src = {'prim': 'source', 'leaf': table_on(spts, False, rng)}
+        c = {'op': 'check_overlap', 'const': K, 'band': band, 'other': O.fill_ss(src), '_kind': kind}
+        if rng.random() < 0.5:
+            c['ovthr'] = q(rng.choice([F(1, 1000), F(1, 200), F(1, 20), F(1, 5), F(1, 2)]))
+        cases.append(c)
+    return cases
+
+
 def gen_status(rng, n):
     out = []
     for _ in range(n):
@@ -339,12 +389,13 @@ def run(rep):
         c['const'] = K
     cases += gen_status(rng, 200)
     cases += gen_exhaustive(rng, K, thorough)
+    cases += gen_grading(rng, K, 6000 if thorough else 600)
     cases += gen_random(rng, K, 40000 if thorough else 1500)
     rep.rule = ('all pairs of sub-intervals of a 6-point lattice (every interval relation incl. shared end points) x '
                 '{untapered, tapered} bandpass x {table, tapered table, box with waveset, unbounded constant, redshifted table} source: '
                 'check_overlap verdicts (some with other thresholds) and Observation construction with force in '
                 '{None, none, taper, extrap, extrapolate, TAPER, Extrap, bogus}, sampled inside, outside and far outside both ranges; '
-                'plus random source/bandpass pairs off the lattice and overlap_status on arrays. Non-trivial: a verdict or an admission decision was produced.')
+                'plus graded placements (bandpass sticking out of an untapered source range by a sliver or a large part, on either or both sides, x 6 thresholds), random source/bandpass pairs off the lattice and overlap_status on arrays. Non-trivial: a verdict or an admission decision was produced.')
 
     def tags(c, o):
         t = [c['op'], 'outcome:' + (o.get('err') or (o['ok'] if isinstance(o.get('ok'), str) else 'ok'))]
@@ -359,7 +410,7 @@ def search(rep, mismatches):
     sub = core.Report(rep.pid, 'thorough', rep.seed + 1)
     rng = sub.rng('c06-search')
     K = O.consts()
-    cases = gen_exhaustive(rng, K, True) + gen_random(rng, K, 2000)
+    cases = gen_exhaustive(rng, K, True) + gen_grading(rng, K, 2000) + gen_random(rng, K, 2000)
     impl = core.pmap(impl_call, cases)
     for c, o in zip(cases, impl):
         oracle(sub, c, o)
